@@ -248,7 +248,7 @@ void check_C05(Src &s, Ctx &ctx) {
         if (pwc) why_not = "order0"; else if (sp.family == F_LOCALP && sp.rule == rule_localp0) why_not = "zero-boundary";
         // DESIGN 2.9: a local polynomial grid interpolates (hence reproduces its span) only if every loaded point has all of its parents loaded; selective
         // refinement may add a child of one parent only (seen: semi-localp (1,-1,-1/2) without (1,-1,1): the surplus of an affine function is then not 0)
-        else if (sp.family == F_LOCALP && !parent_complete(st)) why_not = "incomplete-hierarchy";
+        else if (sp.family == F_LOCALP && !parent_complete(st) && !dag_closed(st)) why_not = "incomplete-hierarchy";   // (gaps are fine when the ancestor walk is closed, see history.hpp)
         else {
             std::set<Coord> have; for (int i = 0; i < n; i++) have.insert(coord_of(&PA[(size_t)i * (size_t)d], d));
             std::vector<double> slope((size_t)d, 0.0); int nslope = 0;
